@@ -263,6 +263,31 @@ theorem certified_step (g g' : Grid α) (c c' : Cav) (hc : certOk g c = true) (h
   · intro H _ χ hχ hd
     exact ledgerOkAt_sound hχ hd g c h4
 
+/-- **certified_ids** ("the set of face ids does not grow; new boundary tris inherit the id of a removed one"): with
+    the executable clause `segIdsOk` (every live seg carries the id of a listed boundary tri), after an accepted
+    replacement every live boundary tri is an old one or has the face id of a boundary tri that was removed.
+    (`_partial` with respect to "the SET of face ids is unchanged": that no id disappears is not a property of the
+    cavity operator — a patch reduced to the removed tris would lose its id — and is left to the callers' guards.) -/
+theorem certified_ids_partial (g g' : Grid α) (c c' : Cav) (hinv : GridInv g) (hc : certOk g c = true)
+    (hids : segIdsOk g c = true) (h : replace g c = (.ok, c', g')) :
+    ∀ t ∈ g'.tris.valid, t ∈ g.tris.valid ∨
+      ∃ cell ∈ c.triList, ∃ r, g.tris.get? cell = some r ∧ r.id = t.id := by
+  simp only [certOk, Bool.and_eq_true, List.all_eq_true] at hc
+  obtain ⟨⟨⟨h1, h2⟩, _⟩, _⟩ := hc
+  have hlt : ∀ cell ∈ c.tetList, ∃ t, g.tets.get? cell = some t :=
+    fun cell hcell => Option.isSome_iff_exists.mp (h1 cell hcell)
+  have hls : ∀ cell ∈ c.triList, ∃ t, g.tris.get? cell = some t :=
+    fun cell hcell => Option.isSome_iff_exists.mp (h2 cell hcell)
+  intro t ht
+  rcases replace_tris_ids g g' c c' hinv h hlt hls t ht with h0 | ⟨s, hs, hid⟩
+  · exact Or.inl h0
+  · right
+    simp only [segIdsOk, List.all_eq_true, List.any_eq_true, beq_iff_eq] at hids
+    obtain ⟨r, hr, hrid⟩ := hids s hs
+    simp only [listedTris, List.mem_filterMap] at hr
+    obtain ⟨cell, hcell, hget⟩ := hr
+    exact ⟨cell, hcell, r, hget, by rw [hrid, hid]⟩
+
 /-! ## 2. the enlarge loops
 
 `ref_cavity_enlarge_visible` has no iteration cap in the C (`while (keep_growing)`).  The model runs it with two
